@@ -55,6 +55,9 @@ func (p *pg) genCrash(profile string) (Config, Plan) {
 	default:
 		kinds = []string{"append", "append", "append", "deltail", "delhead", "delall", "reopen", "yield", "quiesce", "set", "get"}
 	}
+	if profile == "C02" && p.r.Intn(3) == 0 {
+		return c, p.tornCycles(&c)
+	}
 	mix := p.swarmMix(kinds, "append")
 	n := 6 + p.r.Intn(30)
 	var plan Plan
@@ -99,4 +102,38 @@ func (p *pg) genCrash(profile string) (Config, Plan) {
 		}
 	}
 	return c, plan
+}
+
+// tornCycles: repeated crash -> recover -> append cycles on the same tail file
+// where every append of the cycle is torn by a power loss right after its
+// write. Payload sizes come from {8, 40} and batches have 1-2 entries, so that
+// frame sizes repeat and a new batch (or its commit frame) frequently ends
+// exactly where a frame or commit frame of an earlier torn batch begins.
+func (p *pg) tornCycles(c *Config) Plan {
+	c.Granule = 8
+	c.SegSize = []int{4096, 65536}[p.r.Intn(2)]
+	c.FirstIndex = []uint64{1, 1, 2, 100}[p.r.Intn(4)]
+	c.Strict = false
+	var plan Plan
+	small := func(n int) OpSpec {
+		op := OpSpec{Kind: "append", N: n}
+		for i := 0; i < n; i++ {
+			op.Sizes = append(op.Sizes, []int{8, 8, 40, 16}[p.r.Intn(4)])
+			op.Ext = append(op.Ext, 0)
+		}
+		return op
+	}
+	for i := p.r.Intn(3); i > 0; i-- {
+		plan.Ops = append(plan.Ops, small(1+p.r.Intn(2)))
+	}
+	cycles := 2 + p.r.Intn(4)
+	for i := 0; i < cycles; i++ {
+		op := small(1 + p.r.Intn(2))
+		if p.r.Intn(5) != 0 {
+			op.Fault = &FaultSpec{Class: "power", Target: "WriteAt", K: 0, When: "after"}
+		}
+		plan.Ops = append(plan.Ops, op)
+	}
+	plan.Ops = append(plan.Ops, small(1))
+	return plan
 }
